@@ -93,6 +93,87 @@ impl RefAdam {
     }
 }
 
+/// Reference of the doubling / halving search, driven by the one-step acceptances seen at the trajectory
+/// tap (`seg` = the leapfrog results after the search's start state, all from that start state).
+/// Returns (number of leapfrogs the search makes, step size in force afterwards, adaptation re-created);
+/// Err(None) = not decidable from the tap (near tie, failed evaluation), Err(Some(text)) = the recorded
+/// search is not a possible execution.
+fn ref_search(seg: &[nuts_rs::verif::TapState], initial_step: f64, target: f64) -> Result<(usize, f64, bool), Option<String>> {
+    let acc = |t: &nuts_rs::verif::TapState| -> Result<Option<f64>, Option<String>> {
+        if t.failed {
+            return Err(None);
+        }
+        if t.divergent {
+            return Ok(None);
+        }
+        let a = (-(t.energy - t.initial_energy)).exp().min(1.0);
+        if !a.is_finite() {
+            return Err(None);
+        }
+        if (a - target).abs() < 1e-12 {
+            return Err(None);
+        }
+        Ok(Some(a))
+    };
+    let Some(first) = seg.first() else { return Err(None) };
+    let Some(a1) = acc(first)? else { return Ok((1, initial_step, false)) };
+    let up = a1 > target;
+    let mut step = initial_step;
+    for j in 1..=100usize {
+        let Some(t) = seg.get(j) else {
+            return Err(Some(format!("the search stopped after {} one-step trials although none of them bracketed the target (first acceptance {a1:.6}, target {target}, direction {})", seg.len(), if up { "doubling" } else { "halving" })));
+        };
+        let Some(a) = acc(t)? else { return Ok((j + 1, initial_step, false)) };
+        if up {
+            if a <= target || step > 1e5 {
+                return Ok((j + 1, step, true));
+            }
+            step *= 2.0;
+        } else {
+            if a >= target || step < 1e-10 {
+                return Ok((j + 1, step, true));
+            }
+            step /= 2.0;
+        }
+    }
+    Ok((101, initial_step, false))
+}
+
+/// Compare one recorded search with the reference. `observed_step`: the step size in force afterwards.
+fn check_search(what: &str, pname: &str, seg: &[nuts_rs::verif::TapState], initial_step: f64, target: f64, observed_step: Option<f64>, out: &mut RunOutcome) -> bool {
+    match ref_search(seg, initial_step, target) {
+        Err(None) => {
+            out.probe("search_not_decidable_from_tap", 1);
+            true
+        }
+        Err(Some(msg)) => {
+            out.violate(format!("C07/search_does_not_end_at_bracket/{pname}"), format!("{what}: {msg}"));
+            false
+        }
+        Ok((n, step, reset)) => {
+            if seg.len() != n {
+                let accs: Vec<String> = seg.iter().take(12).map(|t| if t.divergent || t.failed { "div".to_string() } else { format!("{:.4}", (-(t.energy - t.initial_energy)).exp().min(1.0)) }).collect();
+                out.violate(
+                    format!("C07/search_does_not_end_at_bracket/{pname}"),
+                    format!("{what}: the search made {} one-step trials, the bracketing rule ends it after {n} (initial step {initial_step:e}, target {target}, acceptances {:?})", seg.len(), accs),
+                );
+                return false;
+            }
+            if let Some(obs) = observed_step {
+                if rel(obs, step) > 1e-6 {
+                    out.violate(
+                        format!("C07/search_result_not_the_bracketing_step/{pname}"),
+                        format!("{what}: step size in force after the search {obs:e}, the bracketing step is {step:e} (initial step {initial_step:e}, {n} trials, adaptation re-created: {reset})"),
+                    );
+                    return false;
+                }
+            }
+            out.probe(if reset { "searches_checked_bracketed" } else { "searches_checked_fallback" }, 1);
+            true
+        }
+    }
+}
+
 fn rel(a: f64, b: f64) -> f64 {
     (a - b).abs() / (a.abs().max(b.abs()).max(1e-300))
 }
@@ -193,6 +274,11 @@ fn check_c07(cfg: &ChainCfg, h: &crate::chain::History, out: &mut RunOutcome) {
                             let hbar1 = w * (target - a);
                             let mu = bar.ln() + hbar1 / o.gamma;
                             let s0 = mu.exp() / 10.0;
+                            if !is_flow && !h.init_tap.is_empty() && h.init_tap[0].start {
+                                if !check_search("initial search", &pname, &h.init_tap[1..], ss.initial_step, target, Some(s0), out) {
+                                    return;
+                                }
+                            }
                             let mut r = RefDualAvg::new(&ss, s0);
                             r.advance(a, target);
                             state = Some(R::Da(r));
@@ -201,6 +287,11 @@ fn check_c07(cfg: &ChainCfg, h: &crate::chain::History, out: &mut RunOutcome) {
                             let mut probe = RefAdam::new(&ss, 1.0);
                             probe.advance(a, target);
                             let s0 = (bar.ln() - probe.log_step).exp();
+                            if !is_flow && !h.init_tap.is_empty() && h.init_tap[0].start {
+                                if !check_search("initial search", &pname, &h.init_tap[1..], ss.initial_step, target, Some(s0), out) {
+                                    return;
+                                }
+                            }
                             let mut r = RefAdam::new(&ss, s0);
                             r.advance(a, target);
                             state = Some(R::Adam(r));
@@ -219,6 +310,13 @@ fn check_c07(cfg: &ChainCfg, h: &crate::chain::History, out: &mut RunOutcome) {
             out.probe("search_skipped_after_first_update", 1);
         }
         if reset_now && search_ran {
+            let trajs = crate::refnuts::split_trajectories(&d.tap);
+            if trajs.len() >= 2 && !trajs[1].is_empty() {
+                let obs = if is_last { None } else { Some(step) };
+                if !check_search(&format!("search re-run at draw {n}"), &pname, &trajs[1][1..], ss.initial_step, target, obs, out) {
+                    return;
+                }
+            }
             // first transformation change: the search was re-run in this draw call
             // (the estimator is re-created from the found step size: bar = exp(ln(step)) up to rounding)
             if rel(bar, step) < 1e-12 || (is_last && ss.jitter.is_some()) {
